@@ -130,7 +130,7 @@ func runHistory(c *evid.Case, mode string) {
 	if h.role != spectypes.BNRoleProposer && rng.Intn(10) == 0 {
 		h.slots[0] = 0 // the first-slot fixtures: height 0 is special-cased by the runner
 	}
-	h.directed = []string{"", "", "", "evict-redecide", "invalid-decided-first", "other-height-midway", "foreign-envelope"}[rng.Intn(7)]
+	h.directed = []string{"", "", "", "evict-redecide", "invalid-decided-first", "other-height-midway", "foreign-envelope", "evict-decide-publish-fails"}[rng.Intn(8)]
 	cfg := dsim.Config{N: h.n, Byz: byzIdx, Mode: mode, Blinded: h.blinded, Variants: rng.Intn(2) == 0}
 	c.Journal("C03 %s role=%s N=%d byz=%v slots=%v blinded=%v deneb=%v directed=%s", mode, h.role, h.n, h.byz, h.slots, h.blinded, h.deneb, h.directed)
 	cl := dsim.NewCluster(env, rng, cfg)
@@ -175,6 +175,13 @@ func runHistory(c *evid.Case, mode string) {
 			}
 		case k < 78:
 			h.timeout()
+		case k < 80:
+			// fault: the next publish of one operator fails (any kind of message)
+			if hs := cl.Honest(); len(hs) > 0 {
+				op := hs[rng.Intn(len(hs))]
+				op.FailPublish, op.FailPublishTypes = 1, nil
+				h.note("publish-failure-armed")
+			}
 		default:
 			h.stimulus()
 		}
@@ -647,6 +654,35 @@ func (h *hist) playDirected() {
 			}
 			_ = cl.Deliver(op, dsim.WrapConsensus(h.id, h.decidedMsg(h.role, h.vpk, slot, value, rng.Intn(2))), "evict-redecide")
 			h.note("evict-redecide")
+			return
+		}
+	case "evict-decide-publish-fails":
+		// an operator whose instance of the running height is not decided yet: two genuine decided messages of later heights push
+		// that instance out of the controller's container, then the certificate of the running height arrives while the publish
+		// of the operator's post-consensus signature FAILS (Network.Broadcast returns an error), and arrives again afterwards
+		for _, op := range cl.Honest() {
+			sn := dsim.TakeSnap(op.Real[h.role])
+			if !sn.HasInstance || sn.InstDecided || sn.InstHeight != specqbft.Height(slot) {
+				continue
+			}
+			h.played = true
+			for d := 1; d <= 2; d++ {
+				s := slot + phase0.Slot(d)
+				_ = cl.Deliver(op, dsim.WrapConsensus(h.id, h.decidedMsg(h.role, h.vpk, s, dsim.ValueFor(h.role, s, 55, h.blinded), 0)), "decided-future")
+				h.note("decided-future")
+			}
+			v := dsim.ValueFor(h.role, slot, 60, h.blinded)
+			if ps := h.props[slot]; len(ps) > 0 && rng.Intn(2) == 0 {
+				v = ps[rng.Intn(len(ps))]
+			}
+			op.FailPublish, op.FailPublishTypes = 1, map[string]bool{"post": true}
+			_ = cl.Deliver(op, dsim.WrapConsensus(h.id, h.decidedMsg(h.role, h.vpk, slot, v, 0)), "decided-now-publish-fails")
+			h.note("decided-now-publish-fails")
+			op.FailPublish, op.FailPublishTypes = 0, nil
+			for k := 0; k < 1+rng.Intn(2); k++ {
+				_ = cl.Deliver(op, dsim.WrapConsensus(h.id, h.decidedMsg(h.role, h.vpk, slot, v, k)), "decided-now-again")
+				h.note("decided-now-again")
+			}
 			return
 		}
 	case "invalid-decided-first", "other-height-midway":
